@@ -579,6 +579,13 @@ def canon_minmax(name, xs):
         return X.const((min if name == "min" else max)(c.re for c in cs))
     uniq = {}
     for x in xs: uniq[x.keystr()] = x
+    # absorption: min(max(a, b), b) = b and max(min(a, b), b) = b
+    other = "max" if name == "min" else "min"
+    for k, x in list(uniq.items()):
+        ats = list(x.atoms()) if len(x.m) == 1 and not x.p and x.c == C(1) else []
+        if len(ats) == 1 and ats[0].tag == "fn" and ats[0].name == other and x.eq(X.atom(ats[0])):
+            if any(isinstance(g, X) and g.keystr() in uniq and g.keystr() != k for g in ats[0].args):
+                del uniq[k]
     xs = [uniq[k] for k in sorted(uniq)]
     if len(xs) == 1: return xs[0]
     return mk_fn(name, xs)
